@@ -450,7 +450,6 @@ def main(argv):
                     # worker rebuilding one API): state keyed by package / selector / path instead of content leaks here
                     if (spec.get("service_config") or spec.get("service_yaml")) and er.random() < 0.5:
                         if i not in twins:
-                            from . import grammar
                             tb = os.path.join(root, f"r{i}twin")
                             os.makedirs(tb)
                             try:
